@@ -101,9 +101,17 @@ def session(spec):
             # first run to obtain trained models, then feed them back in the requested order
             _, ms, sc0, _ = mokapot.brew([ds], model, test_fdr=0.05, folds=spec["folds"], max_workers=1, rng=spec["seed"])
             ds, proteins = build(spec, wd)      # brew consumes the spectra dataframe: rebuild the dataset object
-            models_in = [ms[i] for i in spec["refeed"]]
-            first = np.asarray(sc0[0], dtype=float)
             rec.events.clear()
+            if all(bool(m.is_trained) for m in ms):
+                models_in = [ms[i] for i in spec["refeed"]]
+                first = np.asarray(sc0[0], dtype=float)
+            else:
+                # training failed in some fold ("Model performs worse after training"): brew refuses untrained models,
+                # the statement's "models returned by one run" presupposes trained ones -> an ordinary session instead
+                models_in = brewrun.RModel(LinearSVC(dual=False, class_weight={0: 1, 1: 1}), train_fdr=0.05, max_iter=3,
+                                           rng=spec["seed"], token=tok)
+                out["labels"].append("refeed_skipped_untrained_model")
+                out["digests"].append("skipped")
         _, ms, scs, descs = mokapot.brew([ds], models_in, test_fdr=0.05, folds=spec["folds"],
                                          max_workers=spec.get("workers", 1), rng=spec["seed"])
         scores = np.asarray(scs[0], dtype=float)
